@@ -316,7 +316,13 @@ def run(rep, tier):
             if it.replace('const ', '').strip() not in ('long', 'int', 'unsigned long', 'unsigned int', 'size_t', 'long long', 'uint32_t', 'int32_t', 'int64_t'):
                 continue
             # the index is a key turned into a number (a conversion call or the key itself), not the running position of an array element
-            if not any(y['k'] in ('CallExpr', 'CXXMemberCallExpr') or (y['k'] == 'MemberExpr' and y.get('ref', {}).get('name') == 'first') for y in sub(n['c'][2])):
+            idx_nodes = list(sub(n['c'][2]))
+            for y in list(idx_nodes):
+                if y['k'] == 'DeclRefExpr' and 'lid' in y.get('ref', {}):
+                    dcl = next((d_ for s_ in d2l.walk() if s_['k'] == 'DeclStmt' for d_ in s_.get('decls', []) if d_.get('lid') == y['ref']['lid'] and isinstance(d_.get('init'), dict)), None)
+                    if dcl is not None:
+                        idx_nodes += list(sub(dcl['init']))     # `long index = strTo<long>(key); .. luaData[index]`
+            if not any(y['k'] in ('CallExpr', 'CXXMemberCallExpr') or (y['k'] == 'MemberExpr' and y.get('ref', {}).get('name') == 'first') for y in idx_nodes):
                 continue
             nidx += 1
             guarded = False
